@@ -62,13 +62,13 @@ kani_unit("air_proof", "winter-air", "air/src/proof/mod.rs", "kani/air_proof.rs"
 kani_unit("air_parsers", "winter-air", "air/src/proof/mod.rs", "kani/air_parsers.rs", "proof", [
     H("air_ood_honest_shape_bounded", ["C06", "C03"], ["OodFrame::read_from", "OodFrame::write_into", "OodFrame::parse", "TraceOodFrame::main_frame", "TraceOodFrame::aux_frame"],
       "read_from + parse::<f64> never panic; the container re-encodes to the same bytes; parse == Ok only if every component has exactly the length its content implies (frame size 2, no trailing bytes) and the frame accessors are in bounds",
-      bounded="component lengths fixed: 17/1/8 bytes, 1 main column, no aux; every content byte symbolic", timeout=600),
+      bounded="component lengths fixed: 17/1/8 bytes, 1 main column, no aux; every content byte symbolic", timeout=600, tier="thorough"),
     H("air_ood_lagrange_without_aux_bounded", ["C06", "C03"], ["OodFrame::read_from", "OodFrame::write_into", "OodFrame::parse", "TraceOodFrame::main_frame", "TraceOodFrame::aux_frame"],
       "read_from + parse::<f64> never panic; the container re-encodes to the same bytes; parse == Ok only if every component has exactly the length its content implies (frame size 2, no trailing bytes) and the frame accessors are in bounds",
       bounded="component lengths fixed: a Lagrange frame of 1 element although the AIR has no auxiliary segment; every content byte symbolic", timeout=600, tier="thorough"),
     H("air_ood_lagrange_with_aux_bounded", ["C06", "C03"], ["OodFrame::read_from", "OodFrame::write_into", "OodFrame::parse", "TraceOodFrame::main_frame", "TraceOodFrame::aux_frame"],
       "read_from + parse::<f64> never panic; the container re-encodes to the same bytes; parse == Ok only if every component has exactly the length its content implies (frame size 2, no trailing bytes) and the frame accessors are in bounds",
-      bounded="component lengths fixed: Lagrange frame of 1 element, aux width 1; every content byte symbolic", timeout=600),
+      bounded="component lengths fixed: Lagrange frame of 1 element, aux width 1; every content byte symbolic", timeout=600, tier="thorough"),
     H("air_ood_short_rows_bounded", ["C06", "C03"], ["OodFrame::read_from", "OodFrame::write_into", "OodFrame::parse", "TraceOodFrame::main_frame", "TraceOodFrame::aux_frame"],
       "read_from + parse::<f64> never panic; the container re-encodes to the same bytes; parse == Ok only if every component has exactly the length its content implies (frame size 2, no trailing bytes) and the frame accessors are in bounds",
       bounded="component lengths fixed: trace-state vector of 9 bytes (rows shorter than the main width for any frame-size byte); every content byte symbolic", timeout=600, tier="thorough"),
@@ -83,15 +83,15 @@ kani_unit("air_parsers", "winter-air", "air/src/proof/mod.rs", "kani/air_parsers
       bounded="component lengths fixed: all three vectors empty; every content byte symbolic", timeout=600, tier="thorough"),
     H("air_ood_two_columns_bounded", ["C06", "C03"], ["OodFrame::read_from", "OodFrame::write_into", "OodFrame::parse", "TraceOodFrame::main_frame", "TraceOodFrame::aux_frame"],
       "read_from + parse::<f64> never panic; the container re-encodes to the same bytes; parse == Ok only if every component has exactly the length its content implies (frame size 2, no trailing bytes) and the frame accessors are in bounds",
-      bounded="component lengths fixed: 2 columns, 2 evaluations; every content byte symbolic", timeout=600),
+      bounded="component lengths fixed: 2 columns, 2 evaluations; every content byte symbolic", timeout=600, tier="thorough"),
     H("air_ood_wide_rows_bounded", ["C06", "C03"], ["OodFrame::read_from", "OodFrame::parse"],
       "a trace-state vector of 4 elements for a 1-column trace without auxiliary segment is refused when its frame-size byte is 4 or 1 (a frame size of 4 would yield rows twice as wide as the trace, which the verifier takes for an auxiliary frame and then panics on the missing auxiliary randomness)",
-      bounded="a concrete input: component lengths and element bytes fixed (33 / 1 / 8 bytes; 1 main column); frame-size byte 4 or 1", timeout=600),
+      bounded="a concrete input: component lengths and element bytes fixed (33 / 1 / 8 bytes; 1 main column); frame-size byte 4 or 1", timeout=600, tier="thorough"),
     H("air_table_from_bytes_shape_contract", ["C06", "C12"], ["Table::from_bytes", "RowIterator::next"],
       "forall rows, cols in 1..=255 (all shapes the options / trace-info constructors admit) on an 8-byte input: never panics"),
     H("air_table_rows_bounded", ["C06", "C12"], ["Table::from_bytes", "Table::get_row", "Table::rows"], "2x2 table: rows are in bounds, iterator yields exactly 2 rows", bounded="2 x 2 elements"),
     H("air_queries_container_bounded", ["C12", "C03"], ["Queries::read_from", "Queries::write_into"], "container round trip, exact consumption", bounded="8 value bytes + 3 path bytes"),
-    H("air_commitments_parse_bounded", ["C06", "C03"], ["Commitments::read_from", "Commitments::parse"], "parse succeeds only if every byte is consumed (UnconsumedBytes otherwise)", bounded="95, 96 and 97 commitment bytes, 32-byte digests", timeout=900),
+    H("air_commitments_parse_bounded", ["C06", "C03"], ["Commitments::read_from", "Commitments::parse"], "parse succeeds only if every byte is consumed (UnconsumedBytes otherwise)", bounded="95, 96 and 97 commitment bytes, 32-byte digests", timeout=900, tier="thorough"),
     H("air_parsers_canary_must_fail", ["C06", "C03", "C12"], [], "false claim: Table::from_bytes always fails", canary=True),
 ], modname="verif_kani_parsers")
 
